@@ -142,6 +142,10 @@ func c14Hand() []c14Spec {
 		{Name: "create|stat", Setup: dir1, Tasks: [][]SOp{{sop("create", 1, "n", uint32(0644), p9p.ORDWR)}, {sop("stat", 1)}}},
 		{Name: "createdir|clunk", Setup: dir1, Tasks: [][]SOp{{sop("create", 1, "n", uint32(p9p.DMDIR|0755), p9p.OREAD)}, {sop("clunk", 1)}}},
 		{Name: "read,clunk|stat,walk", Setup: base, Tasks: [][]SOp{{sop("read", 1), sop("clunk", 1)}, {sop("stat", 1), sop("walk", 0, p9p.Fid(1), []string{"c"})}}},
+		// a walk to a new fid that fails or stops short, while another request already names that fid
+		{Name: "walk-new-notfound|clunk-new", Setup: []SOp{attach0}, Tasks: [][]SOp{{sop("walk", 0, p9p.Fid(2), []string{"x"})}, {sop("clunk", 2)}}},
+		{Name: "walk-new-partial|stat-new", Setup: []SOp{attach0}, Tasks: [][]SOp{{sop("walk", 0, p9p.Fid(2), []string{"a", "x"})}, {sop("stat", 2)}}},
+		{Name: "walk-new-fails|stat-new+fault", Setup: []SOp{attach0}, Tasks: [][]SOp{{sop("walk", 0, p9p.Fid(2), []string{"a"})}, {sop("stat", 2)}}, Dev: 1},
 		// an operation issued with an already cancelled context, colliding with another
 		{Name: "read(cancelled)|stat", Setup: base, Tasks: [][]SOp{{deadOp(sop("read", 1))}, {sop("stat", 1)}}},
 		{Name: "write(cancelled)|clunk", Setup: base, Tasks: [][]SOp{{deadOp(sop("write", 1))}, {sop("clunk", 1)}}},
